@@ -160,6 +160,7 @@ func selfTest() (failed []string, n int) {
 	expect("facts / validator ensures-summary", convOK("LenViaValidatorOK"), true)
 	expect("facts / bool validator `a && b`", convOK("LenViaBoolExprOK"), true)
 	expect("facts / bool validator `a || b` proves nothing", convOK("LenViaWeakBoolBad"), false)
+	expect("facts / negated bool validator `isIncomplete(b)`", convOK("LenViaNegatedBoolOK"), true)
 	nilOK := func(name string) bool {
 		f := fnOf(name)
 		ok := true
